@@ -12,6 +12,7 @@ import (
 	"github.com/google/uuid"
 	"github.com/internetarchive/Zeno/internal/pkg/config"
 	"github.com/internetarchive/Zeno/internal/pkg/source/lq/sqlc_model"
+	"github.com/internetarchive/Zeno/internal/pkg/verifhook"
 )
 
 type LQClient struct {
@@ -54,6 +55,9 @@ func (c *LQClient) ResetURL(ctx context.Context, seed string) error {
 }
 
 func (c *LQClient) Get(ctx context.Context, limit int) ([]sqlc_model.Url, error) {
+	if err := verifhook.Fault("lq.db.get"); err != nil {
+		return nil, err
+	}
 	tx, err := globalLQ.client.dbWrite.Begin()
 	if err != nil {
 		return nil, err
@@ -82,6 +86,9 @@ func (c *LQClient) Get(ctx context.Context, limit int) ([]sqlc_model.Url, error)
 }
 
 func (c *LQClient) Add(ctx context.Context, urls []sqlc_model.Url, bypassSeencheck bool) error {
+	if err := verifhook.Fault("lq.db.add"); err != nil {
+		return err
+	}
 	tx, err := globalLQ.client.dbWrite.Begin()
 	if err != nil {
 		return err
@@ -118,6 +125,9 @@ func (c *LQClient) Add(ctx context.Context, urls []sqlc_model.Url, bypassSeenche
 }
 
 func (c *LQClient) Delete(ctx context.Context, urls []sqlc_model.Url, bypassSeencheck bool) error {
+	if err := verifhook.Fault("lq.db.delete"); err != nil {
+		return err
+	}
 	tx, err := globalLQ.client.dbWrite.Begin()
 	if err != nil {
 		return err
